@@ -760,7 +760,7 @@ func TestMC_C20(t *testing.T) {
 	c := verifmc.Start(t, "C20", "model_checking")
 	defer c.Finish()
 	c20BuildEvents()
-	depth := verifmc.Pick(c, 6, 10)
+	depth := verifmc.Pick(c, 6, 14)
 	if v := os.Getenv("C20_DEPTH"); v != "" {
 		fmt.Sscan(v, &depth)
 	}
